@@ -6,6 +6,7 @@ R01.6 destructive primitives capture the whole registry view
 R01.7 group inverse maps inverse() over the actions in reverse order
 R01.8 every constructed sub-edit is recorded, in construction order
 R01.9 (with E6) annotators that react to X also react to inverse(X) where it matters
+R01.10 optional ids handed back by inverses are never tested by truthiness (0 is a legal id)
 plus the history-shape rules R02.2-R02.4 (undo/redo apply the right inverse in the right order).
 """
 
@@ -282,3 +283,7 @@ def run(P: Program, R: Report, tier: str) -> None:
     from .triggers import inverse_triggers
 
     inverse_triggers(P, R, M)
+    # R01.10 an inverse hands back captured ids, and 0 is a legal id: no truthiness tests on optional ids
+    from .c05 import id_truthiness
+
+    id_truthiness(P, R, "R01.10", modules=("actions", "annotators", "user_actions"))
